@@ -107,32 +107,56 @@ pub fn c14_slice_region_to_region() {
     sym::forget((r, r2, owned));
 }
 
-// @h prop=C14 tier=quick kind=proof inst="ReadColumns<MirrorRegion<u8>>" bounds="row of 2 symbolic cells after a 3-cell row; targets of 0, 1, 4 symbolic bytes" desc="into_owned, clone_onto (all target lengths), borrow_as round trip by iteration"
-#[cfg_attr(kani, kani::proof, kani::unwind(7))]
-pub fn c14_columns_laws() {
+fn columns_clone_onto(tlen: usize) {
     let a = Bytes::<3>::any_len(3);
     let b = Bytes::<3>::any_len(2);
     let mut r = CR::default();
     let _ = r.push(a.as_slice());
     let ib = r.push(b.as_slice());
     let x = r.index(ib);
-    let mut t0 = target(0);
-    x.clone_onto(&mut t0);
-    assert!(t0.len() == 2 && same_bytes(&t0, b.as_slice()), "C14: columns clone_onto (empty target) differs");
-    let mut t1 = target(1);
-    x.clone_onto(&mut t1);
-    assert!(t1.len() == 2 && same_bytes(&t1, b.as_slice()), "C14: columns clone_onto (shorter target) differs");
-    let mut t4 = target(4);
-    x.clone_onto(&mut t4);
-    assert!(t4.len() == 2 && same_bytes(&t4, b.as_slice()), "C14: columns clone_onto (longer target) differs");
-    let y = <CR as Region>::ReadItem::borrow_as(&t4);
+    let mut t = target(tlen);
+    x.clone_onto(&mut t);
+    assert!(t.len() == 2 && same_bytes(&t, b.as_slice()), "C14: columns clone_onto leaves a target that differs from into_owned");
+    cover!(true, "end reached");
+    sym::forget((r, t));
+}
+
+// @h prop=C14 tier=quick kind=proof inst="ReadColumns<MirrorRegion<u8>>" bounds="row of 2 symbolic cells after a 3-cell row; empty target" desc="clone_onto(x, t) leaves t == into_owned(x)"
+#[cfg_attr(kani, kani::proof, kani::unwind(7))]
+pub fn c14_columns_clone_onto_empty() {
+    columns_clone_onto(0);
+}
+
+// @h prop=C14 tier=quick kind=proof inst="ReadColumns<MirrorRegion<u8>>" bounds="row of 2 symbolic cells; target of 1 symbolic byte" desc="clone_onto: shorter target"
+#[cfg_attr(kani, kani::proof, kani::unwind(7))]
+pub fn c14_columns_clone_onto_shorter() {
+    columns_clone_onto(1);
+}
+
+// @h prop=C14 tier=quick kind=proof inst="ReadColumns<MirrorRegion<u8>>" bounds="row of 2 symbolic cells; target of 4 symbolic bytes" desc="clone_onto: longer target"
+#[cfg_attr(kani, kani::proof, kani::unwind(7))]
+pub fn c14_columns_clone_onto_longer() {
+    columns_clone_onto(4);
+}
+
+// @h prop=C14 tier=quick kind=proof inst="ReadColumns<MirrorRegion<u8>>" bounds="row of 2 symbolic cells after a 3-cell row" desc="borrow_as(&into_owned(x)) reads and iterates like x"
+#[cfg_attr(kani, kani::proof, kani::unwind(7))]
+pub fn c14_columns_borrow_roundtrip() {
+    let a = Bytes::<3>::any_len(3);
+    let b = Bytes::<3>::any_len(2);
+    let mut r = CR::default();
+    let _ = r.push(a.as_slice());
+    let ib = r.push(b.as_slice());
+    let x = r.index(ib);
+    let owned: Vec<u8> = x.into_owned();
+    let y = <CR as Region>::ReadItem::borrow_as(&owned);
     assert!(y.len() == 2 && y.get(0) == x.get(0) && y.get(1) == x.get(1), "C14: borrow_as(&owned) reads differently");
     assert!(y.iter().eq(x.iter()), "C14: borrow_as(&owned) iterates differently");
     cover!(true, "end reached");
-    sym::forget((r, t0, t1, t4));
+    sym::forget((r, owned));
 }
 
-// @h prop=C14 tier=quick kind=proof inst="ColumnsRegion<MirrorRegion<u8>> -> ColumnsRegion<MirrorRegion<u8>>" bounds="row of 2 symbolic cells pushed as read item and as borrow_as(&owned) into a second region holding a 1-cell row" desc="region-to-region push of rows yields equal rows"
+// @h prop=C14 tier=quick kind=proof inst="ColumnsRegion<MirrorRegion<u8>> -> ColumnsRegion<MirrorRegion<u8>>" bounds="row of 2 symbolic cells pushed as a region-backed read item into a second region holding a 1-cell row" desc="region-to-region push of a row yields an equal row"
 #[cfg_attr(kani, kani::proof, kani::unwind(7))]
 pub fn c14_columns_region_to_region() {
     let a = Bytes::<3>::any_len(1);
@@ -145,12 +169,23 @@ pub fn c14_columns_region_to_region() {
     let i2 = r2.push(x);
     let y = r2.index(i2);
     assert!(y.len() == 2 && y.get(0) == b.buf[0] && y.get(1) == b.buf[1], "C14: row pushed from a read item differs");
-    let owned: Vec<u8> = x.into_owned();
+    cover!(true, "end reached");
+    sym::forget((r, r2));
+}
+
+// @h prop=C14 tier=quick kind=proof inst="ColumnsRegion<MirrorRegion<u8>> <- borrow_as(&owned row)" bounds="owned row of 2 symbolic cells pushed through its borrowed representation into a region holding a 1-cell row" desc="pushing a borrow of the owned form yields an equal row"
+#[cfg_attr(kani, kani::proof, kani::unwind(7))]
+pub fn c14_columns_push_borrowed() {
+    let a = Bytes::<3>::any_len(1);
+    let b = Bytes::<3>::any_len(2);
+    let owned: Vec<u8> = b.to_vec();
+    let mut r2 = CR::default();
+    let _ = r2.push(a.as_slice());
     let i3 = r2.push(<CR as Region>::ReadItem::borrow_as(&owned));
     let z = r2.index(i3);
     assert!(z.len() == 2 && z.get(0) == b.buf[0] && z.get(1) == b.buf[1], "C14: row pushed from borrow_as(&owned) differs");
     cover!(true, "end reached");
-    sym::forget((r, r2, owned));
+    sym::forget((r2, owned));
 }
 
 // @h prop=C14 tier=quick kind=proof inst="&[u8] (OwnedRegion<u8>) and &str (StringRegion)" bounds="item of 2 symbolic bytes, string of shape [2-byte,3-byte]; targets: longer and empty" desc="into_owned, clone_onto, borrow_as, reborrow, region-to-region push for the reference read items"
